@@ -402,6 +402,29 @@ func c02(r *Report, s *Sem) {
 		})
 	}
 
+	// ---- R9: slice expressions
+	R9 := r.Rule("R9", "every slice expression x[lo:hi] reachable from a decode entry point is within bounds: constant bounds against a proven minimum length, or a position found in that very value (strings.Index* of the same x on its ≥ 0 / found edge, optionally +1 or +len(sep)), or len-guarded — an index computed on one string and applied to another (e.g. after the string was cut) is refused", 0)
+	for _, fn := range fns {
+		eachInstr(fn, func(in ssa.Instruction) {
+			sl, ok := in.(*ssa.Slice)
+			if !ok {
+				return
+			}
+			if pt, ok := sl.X.Type().Underlying().(*types.Pointer); ok {
+				if _, isArr := pt.Elem().Underlying().(*types.Array); isArr {
+					if sl.Low == nil && sl.High == nil {
+						return // arr[:] of a local array (varargs, literals)
+					}
+				}
+			}
+			construct := "func " + fnName(fn) + " / slice " + describe(sl.X) + "[" + descOrEmpty(sl.Low) + ":" + descOrEmpty(sl.High) + "]"
+			okLo, whyLo := sliceBoundOK(sl.X, sl.Low, in.Block())
+			okHi, whyHi := sliceBoundOK(sl.X, sl.High, in.Block())
+			okOrder := sl.Low == nil || sl.High == nil || boundsOrdered(sl.Low, sl.High, in.Block())
+			r.Check(R9, construct, p.instrPos(in), okLo && okHi && okOrder, fmt.Sprintf("low: %s; high: %s; low ≤ high: %v", whyLo, whyHi, okOrder))
+		})
+	}
+
 	// ---- R7
 	R7 := r.Rule("R7", "JSON null resets an interface: after json.Unmarshal into an interface-typed variable (the authentication / document decode) the value may be nil whatever the factory returned, so no method is invoked on it — directly, or in a lime function it is handed to — without a nil test", 2)
 	for _, fn := range fns {
@@ -747,4 +770,186 @@ func sameLenAs(x, y ssa.Value) bool {
 		}
 	}
 	return ok && n > 0
+}
+
+func descOrEmpty(v ssa.Value) string {
+	if v == nil {
+		return ""
+	}
+	return describe(v)
+}
+
+// indexOfIn: v is the result of a strings/bytes position search in x (Index, IndexByte, IndexRune, IndexAny,
+// LastIndex…), so -1 ≤ v < len(x) (and v + len(sep) ≤ len(x) when found).
+func indexOfIn(v, x ssa.Value) (sepLen int64, ok bool) {
+	call, _ := callOf(stripConv(v))
+	if call == nil {
+		return 0, false
+	}
+	g := call.Call.StaticCallee()
+	if g == nil || g.Pkg == nil || (g.Pkg.Pkg.Path() != "strings" && g.Pkg.Pkg.Path() != "bytes") {
+		return 0, false
+	}
+	switch g.Name() {
+	case "Index", "LastIndex":
+		if stripConv(call.Call.Args[0]) != stripConv(x) {
+			return 0, false
+		}
+		if cs, isC := constString(stripConv(call.Call.Args[1])); isC {
+			return int64(len(cs)), true
+		}
+		return 0, true
+	case "IndexByte", "LastIndexByte", "IndexRune", "IndexAny", "LastIndexAny", "IndexFunc", "LastIndexFunc":
+		if stripConv(call.Call.Args[0]) != stripConv(x) {
+			return 0, false
+		}
+		return 1, true
+	}
+	return 0, false
+}
+
+// nonNegAt: v ≥ 0 is known at block b from a dominating guard (v >= 0, v > -1, v != -1, !(v < 0)).
+func nonNegAt(v ssa.Value, b *ssa.BasicBlock) bool {
+	v = stripConv(v)
+	return condGuard(b, func(c Cond) bool {
+		x, y, op := c.X, c.Y, c.Op
+		if x == nil || y == nil {
+			return false
+		}
+		if stripConv(y) == v {
+			// constant on the left: flip
+			x, y = y, x
+			switch op {
+			case token.LSS:
+				op = token.GTR
+			case token.LEQ:
+				op = token.GEQ
+			case token.GTR:
+				op = token.LSS
+			case token.GEQ:
+				op = token.LEQ
+			}
+		}
+		if stripConv(x) != v {
+			return false
+		}
+		k, isC := constInt(stripConv(y))
+		if !isC {
+			return false
+		}
+		switch op {
+		case token.GEQ:
+			return k >= 0
+		case token.GTR:
+			return k >= -1
+		case token.NEQ:
+			return k == -1
+		case token.EQL:
+			return k >= 0
+		}
+		return false
+	})
+}
+
+// sliceBoundOK: 0 ≤ bound ≤ len(x) at block b.
+func sliceBoundOK(x, bound ssa.Value, b *ssa.BasicBlock) (bool, string) {
+	if bound == nil {
+		return true, "default"
+	}
+	bv := stripConv(bound)
+	if k, ok := constInt(bv); ok {
+		if k == 0 {
+			return true, "0"
+		}
+		if k < 0 {
+			return false, "negative constant"
+		}
+		min := minLen(x, b)
+		return k <= min, fmt.Sprintf("constant %d against proven len ≥ %d", k, min)
+	}
+	// len(x) itself, or len(x) - k guarded… keep to the plain form
+	if call, _ := callOf(bv); call != nil {
+		if bi, ok := call.Call.Value.(*ssa.Builtin); ok && bi.Name() == "len" && stripConv(call.Call.Args[0]) == stripConv(x) {
+			return true, "len of the same value"
+		}
+	}
+	// position found in the same value
+	if _, ok := indexOfIn(bv, x); ok {
+		return nonNegAt(bv, b), "position found in the same value (needs its ≥ 0 edge)"
+	}
+	if bo, ok := bv.(*ssa.BinOp); ok && bo.Op == token.ADD {
+		base, add := bo.X, bo.Y
+		if _, isC := constInt(stripConv(base)); isC {
+			base, add = add, base
+		}
+		if k, isC := constInt(stripConv(add)); isC && k >= 0 {
+			if sep, ok := indexOfIn(base, x); ok && k <= sep {
+				return nonNegAt(base, b), fmt.Sprintf("position found in the same value + %d (separator length %d)", k, sep)
+			}
+		}
+	}
+	// i bounded by a dominating i <= len(x) / i < len(x), with i ≥ 0 (range index or guarded)
+	if rangeIndexSafe(x, bv, b) {
+		return true, "index proven < len of the same value"
+	}
+	leq := condGuard(b, func(c Cond) bool {
+		if c.Op != token.LEQ && c.Op != token.LSS && c.Op != token.GEQ && c.Op != token.GTR {
+			return false
+		}
+		lo, hi := c.X, c.Y
+		if c.Op == token.GEQ || c.Op == token.GTR {
+			lo, hi = hi, lo
+		}
+		if stripConv(lo) != bv {
+			return false
+		}
+		call, _ := callOf(stripConv(hi))
+		if call == nil {
+			return false
+		}
+		bi, ok := call.Call.Value.(*ssa.Builtin)
+		return ok && bi.Name() == "len" && stripConv(call.Call.Args[0]) == stripConv(x)
+	})
+	if leq && (nonNegAt(bv, b) || isUnsignedOrLen(bv)) {
+		return true, "guarded by ≤ len of the same value"
+	}
+	return false, "bound " + describe(bound) + " is not tied to the sliced value"
+}
+
+func isUnsignedOrLen(v ssa.Value) bool {
+	if call, _ := callOf(v); call != nil {
+		if bi, ok := call.Call.Value.(*ssa.Builtin); ok && (bi.Name() == "len" || bi.Name() == "cap") {
+			return true
+		}
+	}
+	if bt, ok := v.Type().Underlying().(*types.Basic); ok && bt.Info()&types.IsUnsigned != 0 {
+		return true
+	}
+	return false
+}
+
+// boundsOrdered: lo ≤ hi for the accepted forms: constants, lo constant 0, or both tied to positions where lo's
+// search… kept minimal: constants compared numerically; otherwise a dominating guard lo <= hi / lo < hi.
+func boundsOrdered(lo, hi ssa.Value, b *ssa.BasicBlock) bool {
+	l, h := stripConv(lo), stripConv(hi)
+	if k1, ok := constInt(l); ok {
+		if k1 == 0 {
+			return true
+		}
+		if k2, ok := constInt(h); ok {
+			return k1 <= k2
+		}
+		// constant low against a bound ≥ … needs a guard
+	}
+	return condGuard(b, func(c Cond) bool {
+		x, y, op := c.X, c.Y, c.Op
+		if x == nil || y == nil {
+			return false
+		}
+		if op == token.GEQ || op == token.GTR {
+			x, y = y, x
+			op = map[token.Token]token.Token{token.GEQ: token.LEQ, token.GTR: token.LSS}[op]
+		}
+		return (op == token.LEQ || op == token.LSS) && stripConv(x) == l && stripConv(y) == h
+	})
 }
